@@ -211,7 +211,7 @@ def gen_lineage(rng, T, p, ids, P):
             subs.insert(rng.randint(0, len(subs)), ('ann', e))
     return ('grp', written, hid, label, subs)
 
-DEFAULT_P = dict(loss=0.25, dup=0.3, elide=0.5, subid=0.3, label=0.3, ann=0.25, loft=0.15, unary_trees=0.1)
+DEFAULT_P = dict(loss=0.25, dup=0.3, elide=0.5, subid=0.3, label=0.3, ann=0.25, loft=0.15, unary_trees=0.1, idless_top=0.08)
 
 def force_written(l):
     return ('grp', True) + tuple(l[2:])
@@ -533,7 +533,40 @@ def rand_xrefs(rng, gid):
         x.append(('geneId', 'G' + gid if rng.random() < 0.8 else 'shared'))
     if rng.random() < 0.2:
         x.append(('transcriptId', 'T' + gid))
+    if x and rng.random() < 0.12:
+        # two attributes of one <gene> carrying the same value (geneId == protId is common in real files), or a
+        # cross-reference equal to the gene's own id
+        if len(x) >= 2 and rng.random() < 0.6:
+            x[-1] = (x[-1][0], x[0][1])
+        else:
+            x[0] = (x[0][0], gid)
     return x
+
+def add_og_attrs(rng, elems, prob=0.3):
+    """give some orthologGroups an `og` attribute (OMA writes one): different from the id, sometimes shared by nested
+    groups of one family; groups without id get their id from it"""
+    fam = ['OG_%04d' % rng.randint(1, 9999)]
+    def rec(es):
+        out = []
+        for e in es:
+            if e[0] == 'og':
+                og = e[2]
+                if og is None and rng.random() < prob:
+                    og = fam[0] if rng.random() < 0.5 else 'OG_%04d' % rng.randint(1, 9999)
+                out.append(('og', e[1], og, rec(e[3])))
+            elif e[0] == 'pg':
+                out.append(('pg', e[1], rec(e[2])))
+            else:
+                out.append(e)
+        return out
+    res = []
+    for e in elems:
+        fam[0] = 'OG_%04d' % rng.randint(1, 9999)
+        if e[0] == 'og' and e[1] is None:
+            res.append(('og', None, e[2], rec(e[3])))      # a top-level group without id keeps the key None
+        else:
+            res += rec([e])
+    return res
 
 def make_dataset(rng, T=None, naming=None, nfam=None, P=None, maxleaves=8, int_ids=None, top_positions='any',
                  fancy=False, max_tries=200):
@@ -553,6 +586,8 @@ def make_dataset(rng, T=None, naming=None, nfam=None, P=None, maxleaves=8, int_i
     if nfam is None:
         nfam = rng.choice([1, 1, 2, 2, 3, 4, 6])
     fam_no = 0
+    id_offset = rng.choice([0, 0, 1])
+    idless_at = rng.randint(1, nfam) if rng.random() < P.get('idless_top', 0.0) else 0
     for _ in range(nfam):
         for _try in range(max_tries):
             save = (ids.n, ids.h)
@@ -564,7 +599,9 @@ def make_dataset(rng, T=None, naming=None, nfam=None, P=None, maxleaves=8, int_i
         else:
             continue
         fam_no += 1
-        topid = str(fam_no) if rng.random() < 0.7 else 'HOG:%07d' % fam_no
+        topid = str(fam_no + id_offset) if rng.random() < 0.7 else 'HOG:%07d' % fam_no
+        if fam_no == idless_at:
+            topid = None         # one top-level group without id (the schema allows it; it is listed under the key None)
         l = ('grp', True, topid) + tuple(l[3:])
         D.families.append((p, l, topid))
     # species declarations
